@@ -273,3 +273,118 @@ class PassStep(Kernel):
 
 
 KERNELS.append(PassStep())
+
+
+class GraphBranch(Kernel):
+    id = "C05.P.optimize_graph_node"
+    prop = "C05"
+    file = "einx/_src/tracer/optimizer/optimizer.py"
+    module = "einx._src.tracer.optimizer.optimizer"
+    qual = "Optimizer/_optimize"
+    describe = ("Optimizer._optimize on a Graph node that is not in the memo and that no pattern rewrites (any number of inputs): every input gets a FRESH input tracer of its own type, in order, "
+                "and the memo maps exactly the old inputs to their new ones (everything else in the memo is kept) BEFORE the output is optimised; the result is a Graph with those inputs, "
+                "the optimised output and the same name; the changed flag is not touched by this node itself")
+
+    def setup(self, eng, bound=None):
+        import ast
+        self.x = z3.Const("graph", Obj)
+        self.n = z3.Int("n_inputs")
+        self.ins = z3.Array("graph_inputs", I, Obj)
+        self.has0, self.val0 = z3.Array("memo_has", I, B), z3.Array("memo_val", I, Obj)
+        self.c0 = z3.Bool("changed_before")
+        self.new = uf("fresh_input_like", Obj, Obj)          # old_input._tracer_type(None)
+        self.opt = uf("optimize_rec", Obj, Obj)               # recursive call (under its own contract)
+        a, b = z3.Const("a", Obj), z3.Const("b", Obj)
+        k = z3.Int("k")
+        me = SRec("Optimizer", id_to_newobj=SMap(self.has0, self.val0, "int", "obj"), changed=SBool(self.c0), optimizations=SSeq(z3.Array("patterns", I, Obj), z3.IntVal(0), "obj", "list"),
+                  _set=SObj(z3.Const("bound_set", Obj)))
+        xrec = SRec("Graph", inputs=SSeq(self.ins, self.n, "obj", "list"), output=SObj(z3.Const("graph_output", Obj)), name=SObj(z3.Const("graph_name", Obj)), ident=SObj(self.x))
+        xrec.isa = ("Graph", "tracer.Graph")
+
+        def c_id(e, p, av, kw):
+            v = av[0]
+            return SInt(idof(v.f["ident"].t if isinstance(v, SRec) else v.t))
+
+        def c_map(e, p, av, kw):
+            st = p.lookup("self")
+            m = st.f["id_to_newobj"]
+            f = dict(st.f)
+            f["id_to_newobj"] = SMap(z3.Store(m.has, idof(av[1].t), z3.BoolVal(True)), z3.Store(m.val, idof(av[1].t), av[2].t), "int", "obj")
+            p.bind("self", SRec("Optimizer", **f))
+            return SConc(None)
+
+        def c_rec(e, p, av, kw):
+            p.ghost["memo_at_recursion"] = p.lookup("self").f["id_to_newobj"]
+            p.ghost["rec_arg"] = av[0]
+            return SObj(self.opt(av[0].t))
+
+        def c_graph(e, p, av, kw):
+            return SRec("NewGraph", inputs=av[0], output=av[1], name=av[2])
+
+        eng.contracts.update({"id": SContract(c_id, "id()"), "pytree.map": SContract(c_map, "pytree.map(self._set, old, new) on leaves: memo[id(old)] = new"), "self._optimize": SContract(c_rec, "recursive call"),
+                              "tracer.Graph": SContract(c_graph, "Graph(inputs, output, name)")})
+        orig_compare = eng.compare
+
+        def compare(op, a_, b_, p):
+            if isinstance(b_, SMap) and isinstance(op, (ast.In, ast.NotIn)) and isinstance(a_, SInt):
+                e_ = z3.Select(b_.has, a_.t)
+                return e_ if isinstance(op, ast.In) else z3.Not(e_)
+            return orig_compare(op, a_, b_, p)
+
+        eng.compare = compare
+        orig_method = eng.method_opaque if hasattr(eng, "method_opaque") else None
+        orig_apply = eng.apply
+        orig_call = eng.ev_Call
+
+        def ev_Call(n, p):  # old_input._tracer_type(None): a fresh input tracer of the same type
+            if isinstance(n.func, ast.Attribute) and n.func.attr == "_tracer_type" and isinstance(n.func.value, ast.Name) and n.func.value.id == "old_input":
+                yield SObj(self.new(p.lookup("old_input").t)), p
+                return
+            yield from orig_call(n, p)
+
+        eng.ev_Call = ev_Call
+        for nm in ("str", "int", "float", "np.integer", "np.floating", "np.ndarray"):
+            pass
+        eng.axioms += [z3.ForAll([a, b], (idof(a) == idof(b)) == (a == b))]
+        self.distinct = z3.ForAll([k, z3.Int("k2")], z3.Implies(z3.And(0 <= k, k < z3.Int("k2"), z3.Int("k2") < self.n), z3.Select(self.ins, k) != z3.Select(self.ins, z3.Int("k2"))))
+
+        def memo_is(m, i):
+            """memo = memo0 overwritten with inputs[k] -> new(inputs[k]) for k < i"""
+            q, kk = fresh("q"), fresh("kk")
+            hit = lambda qq: z3.Exists([kk], z3.And(0 <= kk, kk < i, idof(z3.Select(self.ins, kk)) == qq))  # noqa
+            return z3.And(z3.ForAll([kk], z3.Implies(z3.And(0 <= kk, kk < i), z3.And(z3.Select(m.has, idof(z3.Select(self.ins, kk))), z3.Select(m.val, idof(z3.Select(self.ins, kk))) == self.new(z3.Select(self.ins, kk))))),
+                          z3.ForAll([q], z3.Implies(z3.Not(hit(q)), z3.And(z3.Select(m.has, q) == z3.Select(self.has0, q), z3.Select(m.val, q) == z3.Select(self.val0, q)))))
+
+        self.memo_is = memo_is
+
+        def inv(s, p, i):
+            st = p.lookup("self")
+            ni = s.as_seq(p.lookup("new_inputs"), p, "obj")
+            kk = fresh("kk")
+            return z3.And(ni.n == i, z3.ForAll([kk], z3.Implies(z3.And(0 <= kk, kk < i), z3.Select(ni.arr, kk) == self.new(z3.Select(self.ins, kk)))), memo_is(st.f["id_to_newobj"], i),
+                          s.truth(st.f["changed"]) == self.c0, st.f["_set"].t == z3.Const("bound_set", Obj))
+
+        eng.invariants[1] = inv
+        eng.local_types = dict(getattr(eng, "local_types", {}), new_inputs=("list", "obj"))
+        isx = lambda c: uf("is_" + c, Obj, B)(self.x)  # noqa
+        pre = [self.n >= 0, self.distinct, z3.Not(z3.Select(self.has0, idof(self.x)))]
+        return {"self": me, "x": xrec}, pre, {}
+
+    def post(self, eng, out, p):
+        if isinstance(out, Raise):
+            eng.oblige("post:no exception", p, z3.BoolVal(False), "post")
+            return
+        r = out.v
+        if not (isinstance(r, SRec) and r.cls == "NewGraph"):
+            eng.oblige("post:returns a new Graph", p, z3.BoolVal(False), "post")
+            return
+        ni = eng.as_seq(r.f["inputs"], p, "obj")
+        kk = fresh("kk")
+        eng.oblige("post:the new graph has one fresh input per old input, of that input's type, in order", p, z3.And(ni.n == self.n, z3.ForAll([kk], z3.Implies(z3.And(0 <= kk, kk < self.n), z3.Select(ni.arr, kk) == self.new(z3.Select(self.ins, kk))))), "post")
+        eng.oblige("post:its output is the optimised old output and its name the old name", p, z3.And(r.f["output"].t == self.opt(z3.Const("graph_output", Obj)), r.f["name"].t == z3.Const("graph_name", Obj)), "post")
+        m = p.ghost.get("memo_at_recursion")
+        eng.oblige("post:when the output is optimised, the memo maps every old input to its fresh input and is otherwise unchanged", p, self.memo_is(m, self.n) if m is not None else z3.BoolVal(False), "post")
+        eng.oblige("post:this node does not touch the changed flag", p, eng.truth(p.lookup("self").f["changed"]) == self.c0, "post")
+
+
+KERNELS.append(GraphBranch())
